@@ -112,3 +112,19 @@ Theorem C19_source_statement_order :
   NW.Gen.PoolOrder.drop_push_before_permit = true /\
   NW.Gen.PoolOrder.release_push_then_one_permit_each = true.
 Proof. repeat split; reflexivity. Qed.
+
+(* ---- connection life cycles and the shared message pool (Model/WriteBudget.v; types pasted from
+        Proofs/WriteBudgetProofs.v by tools/pin.py) ---- *)
+From NW Require Import Model.WriteBudget Proofs.WriteBudgetProofs.
+Local Open Scope nat_scope.
+
+Theorem C19_all_connections_ended_all_message_buffers_back :
+  forall (c : wcfg) (evs : list wev),
+    let s := fst (wrun c nil evs) in live s = 0 -> in_use s = 0 /\ available c s = capacity c.
+Proof. exact all_ended_all_returned. Qed.
+
+Theorem C19_ending_connection_returns_what_it_held :
+  forall (c : wcfg) (s : wstate) (i : nat) (w : wconn) (s' : wstate),
+    get_slot s i = Some w ->
+    wstep c s (WDrop i) = WOk s' -> in_use s' + conn_use (Some w) = in_use s.
+Proof. exact drop_returns_its_buffers. Qed.
